@@ -546,7 +546,8 @@ def streams(ctx):
                 describe="%d code points: encode_scalar/scalar vs char::from_u32 + encode_utf8" % len(cps))
     # ---- c20p: pairs ----
     small = [s for s in ("".join(t) for n in range(0, 4) for t in itertools.product(ALPHA, repeat=n)) if py_valid(bytes.fromhex(s))]
-    extra = ["f09f9880", "f09f98", "f48fbfbf", "ee8080", "efbfbf", "f0908080", "7f", "c280", "dfbf", "e0a080", "ed9fbf", "00"]
+    extra = ["f09f9880", "f09f98", "f48fbfbf", "ee8080", "efbfbf", "f0908080", "7f", "c280", "dfbf", "e0a080", "ed9fbf", "00",
+             "4100", "410000", "0000", "0041", "c2b500", "41424300", "4142430000", "00000000", "0000000000"]
     extra = [e for e in extra if py_valid(bytes.fromhex(e))]
     base = small + extra
     pairs = [a + "," + b for a in base for b in base]
